@@ -40,6 +40,8 @@ func (in *Interp) blobLen(s SliceVal) int {
 	switch x := s.Ext.(type) {
 	case *wsVariant:
 		return in.blobLen(x.of) + 1
+	case *trailingVariant:
+		return in.blobLen(x.of) + 2
 	case *jsonDoc:
 		return in.jsonDocLen(x)
 	case *rawJSON:
@@ -310,6 +312,9 @@ func registerBlobs(ex *Explorer) {
 			if n, err := strconv.ParseUint(r.text, 10, 64); err == nil && isIntType(et) {
 				in.storeInto(dc, et, in.wrap(in.F.BigInt(new(big.Int).SetUint64(n)), et))
 				return IfaceVal{}
+			}
+			if r.text == "<invalid>" {
+				return in.newError("invalid character (document model: not a JSON document)")
 			}
 			in.fail("unsupported", "json.Unmarshal of the raw literal "+r.text)
 		}
